@@ -252,6 +252,19 @@ var Probes = []Probe{
 		}},
 	{ID: "O17", Props: []string{"C16", "C01"}, Input: "f := func(n) { if n == 0 { return 5 }; f(n-1) }; out := f(3)", WhatFail: "a statement-position self call followed by the implicit return is run as a tail call: f(3) yields 5, not undefined",
 		Run: expectGlobal("f := func(n) { if n == 0 { return 5 }; f(n-1) }\nout := f(3)\nok := is_undefined(out)\n", "ok", "(b 1)")},
+	{ID: "O34", Props: []string{"C18"}, Input: "[ ×10001 ] ×10001", WhatFail: "json.decode accepted input nested deeper than 10000 levels, which encoding/json rejects (maxNestingDepth): decode did not fail exactly when encoding/json considers the text invalid",
+		Run: func() (fails bool, obs string) {
+			defer func() {
+				if p := recover(); p != nil {
+					fails, obs = true, fmt.Sprint("panic: ", p)
+				}
+			}()
+			text := []byte(strings.Repeat("[", 10001) + strings.Repeat("]", 10001))
+			if _, err := tjson.Decode(text); err == nil {
+				return true, "accepted (encoding/json.Valid = false)"
+			}
+			return false, ""
+		}},
 }
 
 // KnownEntry mirrors one entry of known_findings.json.
